@@ -282,3 +282,99 @@ _t_shared_structs = tasks
 def tasks(tier):
     from specs.C08 import shared_struct_tasks
     return _t_shared_structs(tier) + shared_struct_tasks('C10.h.', ['StartLiquidation', 'EndLiquidation', 'StartDeleverage', 'EndDeleverage', 'InitLiquidationRecord', 'LendingAccountWithdraw', 'LendingAccountRepay'])
+
+
+# ---------------------------------------------------------------- C10.e: the four bracket instructions wire the shared logic correctly (receiver, flags, discriminator pair, ignore_healthy)
+F_DELEV = 32
+BRACKETS = {
+    'start_liquidation': dict(fn=r'^liquidate_start::start_liquidation$', struct='StartLiquidation', receiver='liquidation_receiver', ignore=False, start='START_LIQUIDATION', end='END_LIQUIDATION', delev=False),
+    'start_deleverage': dict(fn=r'^liquidate_start::start_deleverage$', struct='StartDeleverage', receiver='risk_admin', ignore=True, start='START_DELEVERAGE', end='END_DELEVERAGE', delev=True),
+    'end_deleverage': dict(fn=r'^liquidate_end::end_deleverage$', struct='EndDeleverage', ignore=True, delev=True),
+}
+
+
+def mk_bracket(name):
+    def t(world):
+        from specs.handlers import run_handler, KERNELS, short
+        from specs.C12 import find_accounts
+        B = BRACKETS[name]
+        eng, f, args, res = run_handler(world, B['fn'], kernels=[k for k in KERNELS if k not in (r'set_flag$', r'unset_flag$')],
+                                        extra_opaque=[r'(^|::)start_receivership$', r'(^|::)end_receivership$', r'validate_not_cpi', r'emit', r'Event'])
+        starting = name.startswith('start')
+        ob = Ob(f'C10.e.{name}', f'{name}: ' + ('the record\'s receiver is the key of the signer the instruction names, the shared start logic runs with ignore_healthy = %s and its error is propagated, '
+                'the result of validate_instructions with the (%s, %s) discriminator pair IS the result of the instruction' % (B['ignore'], B.get('start'), B.get('end')) if starting else
+                'not reachable through CPI, the shared end logic runs with ignore_healthy = True and its error is propagated') + ('; the deleverage flag is ' + ('set' if starting else 'cleared') if B['delev'] else ''),
+                [f.name], 'handler mode; start/end_receivership and validate_instructions opaque (C10.b/c/d decide them); flag helpers inlined (C10.g)'); ob.paths = len(res)
+        names = STRUCTS[B['struct']]
+        cv = lambda n: const_bytes(eng, eng.const_val(None, 'marginfi_type_crate::constants::ix_discriminators::' + n))
+        n_ok = 0
+        for r, okc in ok_paths(res):
+            if ob.witness(eng, r, [okc]) is False: continue
+            n_ok += 1
+            Ev = [e for e in flat_events(r['events']) if e[0] == 'call']
+            core = [e for e in Ev if re.search(r'(^|::)(start|end)_receivership$', e[1])]
+            if len(core) != 1 or ('start_' in core[0][1]) != starting:
+                ob.structural(f'the shared {"start" if starting else "end"} logic is not called exactly once on an accepting path', 'core-missing', {'trace': [short(e[1]) for e in Ev][:40]}); continue
+            ob.prove(eng, r, [okc], zint(core[0][3].disc) == 0, 'error of the shared logic is propagated', role='core-error')
+            ig = core[0][2][3]
+            ob.prove(eng, r, [okc], ev(ig) == z3.BoolVal(B['ignore']), f'ignore_healthy == {B["ignore"]}', role='ignore-healthy')
+            accts = {}
+            for root in r['roots']: accts.update(find_accounts(eng, root))
+            ma = [c for c, sv in accts.items() if 'MarginfiAccount' in sv.ty]; rec = [c for c, sv in accts.items() if 'LiquidationRecord' in sv.ty]
+            if len(ma) != 1 or len(rec) != 1: ob.fail(f'accounts: {list(accts)}'); continue
+            # the objects handed to the shared logic are this instruction's account and record
+            same_obj = eng.deref_val(core[0][2][0]) is accts[ma[0]] or getattr(eng.deref_val(core[0][2][0]), 'name', None) == accts[ma[0]].name
+            ob.queries += 1
+            if same_obj: ob.unsat += 1
+            else: ob.sat += 1; ob.cex.append({'ob': ob.oid, 'label': 'the shared logic runs on another account object', 'role': 'core-account', 'model': {}, 'replay': None})
+            if starting:
+                rk = z3.Int(f'a0.1*.{names.index(B["receiver"])}.key')
+                # the receiver is written before the shared logic (which is opaque and havocs the record): read it from the argument state is not possible, so require the write event order instead
+                vi = [e for e in Ev if re.search(r'(^|::)validate_instructions$', e[1])]
+                if len(vi) != 1: ob.structural('validate_instructions is not called exactly once on an accepting path', 'introspection-missing', {'trace': [short(e[1]) for e in Ev][:40]}); continue
+                ob.prove(eng, r, [okc], zint(vi[0][3].disc) == 0, 'a rejected transaction shape rejects the instruction', role='introspection-error')
+                s_, e_ = const_bytes(eng, vi[0][2][2]), const_bytes(eng, vi[0][2][3])
+                ob.queries += 1
+                if s_ == cv(B['start']) and e_ == cv(B['end']) and s_ is not None: ob.unsat += 1
+                else: ob.sat += 1; ob.cex.append({'ob': ob.oid, 'label': f'validate_instructions is given ({s_}, {e_}) instead of ({B["start"]}, {B["end"]})', 'role': 'discriminator-pair', 'model': {}, 'replay': None})
+                recv_w = [e for e in flat_events(r['events']) if e[0] == 'receiver_write']
+            if B['delev']:
+                fl = [e for e in Ev if re.search(r'::(set_flag|unset_flag)$', e[1])]
+            # flags: inlined helpers write account_flags before the (opaque, havocking) shared logic; check through the argument snapshot recorded by the engine at call time is not available,
+            # so the flag and receiver facts are checked on a second run with the shared logic summarised as a no-op (below)
+        ob.notes.append(f'{n_ok} accepting paths')
+        ob.need_witness()
+        # second run: shared logic and introspection summarised as successful no-ops, so the handler's OWN writes are visible in the final state
+        def sum_ok(eng_, st, callee, a):
+            st.events.append(('call', callee, a, None, []))
+            return EnumV('Result', 0, {0: {0: StructV('tuple', 'res', {0: IntV(z3.Int('er0'), I80), 1: IntV(z3.Int('er1'), 'f64'), 2: IntV(z3.Int('er2'), I80), 3: IntV(z3.Int('er3'), 'f64')}, lazy=False) if 'end_receivership' in callee else StructV('()', 'unit', {}, lazy=False)}})
+        eng2, f2, args2, res2 = run_handler(world, B['fn'], kernels=[k for k in KERNELS if k not in (r'set_flag$', r'unset_flag$')],
+                                            extra_opaque=[r'validate_not_cpi', r'emit', r'Event'],
+                                            summaries=[(r'(^|::)(start|end)_receivership$', sum_ok), (r'(^|::)validate_instructions$', sum_ok)])
+        ob2 = Ob(f'C10.e.{name}.writes', f'{name}: the instruction\'s own writes - ' + ('liquidation_receiver := key of `%s`' % B.get('receiver') if starting else 'no receiver write') +
+                 ('; ACCOUNT_IN_DELEVERAGE ' + ('set' if starting else 'cleared') if B['delev'] else '; ACCOUNT_IN_DELEVERAGE untouched') + ', no other flag bit changes',
+                 [f2.name], 'handler mode; shared logic summarised as a successful no-op so that only this handler\'s writes remain'); ob2.paths = len(res2)
+        for r, okc in ok_paths(res2):
+            if ob2.witness(eng2, r, [okc]) is False: continue
+            accts = {}
+            for root in r['roots']: accts.update(find_accounts(eng2, root))
+            ma = [c for c, sv in accts.items() if 'MarginfiAccount' in sv.ty]; rec = [c for c, sv in accts.items() if 'LiquidationRecord' in sv.ty]
+            if len(ma) != 1 or len(rec) != 1: ob2.fail(f'accounts: {list(accts)}'); continue
+            fl0 = fsym(ma[0], 'MarginfiAccount', 'account_flags'); fl1 = ev(fget(eng2, accts[ma[0]], 'MarginfiAccount', 'account_flags'))
+            want = fl0 if not B['delev'] else (z3.If((fl0 / F_DELEV) % 2 == 1, fl0, fl0 + F_DELEV) if starting else z3.If((fl0 / F_DELEV) % 2 == 1, fl0 - F_DELEV, fl0))
+            ob2.prove(eng2, r, [okc], fl1 == want, 'account flags: exactly the deleverage bit changes (or nothing)', role='delev-flag')
+            if starting:
+                rk = z3.Int(f'a0.1*.{names.index(B["receiver"])}.key')
+                ob2.prove(eng2, r, [okc], ev(fget(eng2, accts[rec[0]], 'LiquidationRecord', 'liquidation_receiver')) == rk, f'the record names `{B["receiver"]}` as the receiver controlling the account', role='receiver')
+            else:
+                nc = [e for e in flat_events(r['events']) if e[0] == 'call' and re.search(r'validate_not_cpi_by_stack_height$', e[1])]
+                if not nc: ob2.structural('end instruction lacks the not-CPI check', 'not-cpi')
+                else: ob2.prove(eng2, r, [okc], zint(nc[0][3].disc) == 0, 'not-CPI error propagated', role='not-cpi')
+        ob2.need_witness()
+        return [ob, ob2]
+    return t
+
+
+_t10e = tasks
+def tasks(tier):
+    return _t10e(tier) + [(f'bracket:{n}', mk_bracket(n)) for n in BRACKETS]
